@@ -15,7 +15,8 @@ separated by a reset made of interface calls (Delete of every key the history wr
 must be empty; history-1.reset.history-2 is itself a history of the interface).  Every reported
 divergence is first re-run alone on a fresh store (and, if it only shows in the chain, with the
 chain as replay)."""
-import json, os, shutil, tempfile, collections
+import json
+import zlib, os, shutil, tempfile, collections
 from vlib import Inconclusive, KNOWN
 
 DRIVERS = ["badger", "bolt", "level", "pebble"]
@@ -217,6 +218,10 @@ class Replayer:
 
     def run(self, lines, jobs=8, call_timeout="3s", sup_timeout="120s", timeout=1700):
         self.round += 1
+        # two embeddings of the symbolic byte alphabet 0 < 1 < 2: (0x00, 'a', 'b') and (0x00, 'a', 0xff); which
+        # one a behaviour gets depends on its content only, so that a re-run of the same behaviour uses the same
+        for l in lines:
+            l["hi"] = zlib.crc32(json.dumps(l.get("h") or l.get("chain"), sort_keys=True).encode()) % 2 == 1
         inp = self.ctx.write_ndjson("kv_%d_in.ndjson" % self.round, lines)
         outp = inp.replace("_in.", "_out.")
         self.ctx.harness(["kvdrv", "-j", str(jobs), "-timeout", sup_timeout], input_path=inp, output_path=outp,
